@@ -228,6 +228,8 @@ def do_call(zone, e, zclass, relativize, rec):
     op = e["op"]
     name = spell(e["n"], e["sp"]) if "n" in e else None
     rdtype, covers = split_type(e["ty"]) if "ty" in e else (None, None)
+    astext = e.get("sp") in ("srel", "sabs", "sup")   # "rdtype: RdataType or str": text types go with text names
+    tyargs = (dns.rdatatype.to_text(rdtype), dns.rdatatype.to_text(covers)) if astext and rdtype is not None else (rdtype, covers)
     cr = e.get("cr", False)
     inzone = e.get("n") != "OUT"
     if op in ("find_node", "get_node"):
@@ -252,19 +254,18 @@ def do_call(zone, e, zclass, relativize, rec):
         return res, exc, val_nothing(x)
     if op in ("find_rdataset", "get_rdataset"):
         meth = getattr(zone, op)
-        tform = e.get("tform", "enum")   # the type given as RdataType or as text
-        a = (rdtype, covers) if tform == "enum" else (dns.rdatatype.to_text(rdtype), dns.rdatatype.to_text(covers))
+        a = tyargs
         res, exc, rds = call(lambda: meth(name, a[0], a[1], create=True) if cr else meth(name, a[0], a[1]))
         if op == "get_rdataset" and not cr and inzone:
             rec["tval"] = reader_value(zone, op, name, rdtype, covers, relativize)
         return res, exc, val_rds(rds)
     if op in ("find_rrset", "get_rrset"):
-        res, exc, rrs = call(lambda: getattr(zone, op)(name, rdtype, covers))
+        res, exc, rrs = call(lambda: getattr(zone, op)(name, *tyargs))
         if rrs is None:
             return res, exc, ["none"]
         return res, exc, ["rrset", name_text(rrs.name, relativize)] + rds_proj(rrs)
     if op == "delete_rdataset":
-        res, exc, x = call(lambda: zone.delete_rdataset(name, rdtype, covers))
+        res, exc, x = call(lambda: zone.delete_rdataset(name, *tyargs))
         return res, exc, val_nothing(x)
     if op in ("replace_rdataset", "node_replace"):
         if e["form"] == "rrset":
@@ -275,10 +276,12 @@ def do_call(zone, e, zclass, relativize, rec):
             res, exc, x = call(lambda: zone.replace_rdataset(name, repl))
         else:
             res, exc, x = call(lambda: zone.find_node(name).replace_rdataset(repl))
+        if res == "ok" and e["form"] == "rdataset":   # "it stores replacement itself"
+            rec["own"] = any(r is repl for r in zone.find_node(name).rdatasets)
         return res, exc, val_nothing(x)
     if op == "addto":
         def fn():
-            rds = zone.find_rdataset(name, rdtype, covers, create=True) if cr else zone.find_rdataset(name, rdtype, covers)
+            rds = zone.find_rdataset(name, *tyargs, create=True) if cr else zone.find_rdataset(name, *tyargs)
             rds.add(make_rdata(e["ty"], e["rd"]), e["ttl"])
             return rds
         res, exc, rds = call(fn)
